@@ -29,10 +29,10 @@ m = {
               "baseline_off_cmd": "cd /repo && /venv/bin/python -m pytest -ra -q -p no:cacheprovider --timeout=900 --continue-on-collection-errors",
               "source_commits": [], "add_only": True},
     "engines": [{"name": "hyverif", "path": "/verif/hyverif", "serves_properties": [c["property_id"] for c in checks],
-                 "kind_free_text": "static analysis: clang JSON AST + symbolic range analysis of C kernels, Cython shim reader, Python ast-based shape/alias/effect/key-table/formula analyses; no code of the repository is executed"}],
+                 "kind_free_text": "static analysis: clang JSON AST + symbolic range analysis of C kernels, semantics-preserving normalisation of C and Python sources, path-wise abstract evaluation with effects, Cython shim reader, shape/alias/effect/key-table/formula analyses, computer algebra (sympy) on extracted formulas, row/column dimension typing; no code of the repository is executed"}],
     "checks": checks,
     "not_applicable": na,
-    "notes": "All checks are static (python3-vt standard library + clang -ast-dump=json). Exit 0 held / 1 violation (VIOLATION line) / 2 analysis error (anchor vanished, never a VIOLATION). known_findings.json lists recorded and fixed findings.",
+    "notes": "All checks are static (python3-vt: standard library, plus sympy / numpy / mpmath of the tooling venv for the computer-algebra clauses of C01 and C02; clang -ast-dump=json). Exit 0 held / 1 violation (VIOLATION line) / 2 analysis error (anchor vanished, construct not recognised, obligation undecided, file restructured beyond the calibrated distance: never a VIOLATION). known_findings.json lists the fixed findings; seeded/ and selftest/ hold the corpora the thorough tier replays on scratch copies.",
 }
 json.dump(m, open(os.path.join(HERE, "MANIFEST.json"), "w"), indent=1)
 print("checks:", [c["property_id"] for c in checks], "n/a:", len(na))
